@@ -87,6 +87,7 @@ FUNCS = {
     # the value returned is that of a postfix expression: the side effect must still happen
     "ri": dict(c="char ri() { return c++; }", params=[], body=[{"k": "return", "e": {"k": "inc", "pre": False, "d": 1, "lhs": V("c")}}], calls=[]),
     "rd2": dict(c="char rd2(char x) { return arr[x]--; }", params=[("rd2_x", 8)], body=[{"k": "return", "e": {"k": "inc", "pre": False, "d": -1, "lhs": {"k": "idx", "arr": "arr", "i": V("rd2_x")}}}], calls=[]),
+    "ra": dict(c="char ra(char x) { return arr[x]; }", params=[("ra_x", 8)], body=[{"k": "return", "e": {"k": "idx", "arr": "arr", "i": V("ra_x")}}], calls=[]),
     # explicit hardware-access statements inside (inline) functions: they must survive inlining exactly once, in order (C18)
     "rdp": dict(c="void rdp() { load(*PORT1); }", params=[], body=[{"k": "load", "e": V("PORT1")}], calls=[]),
     "rda": dict(c="void rda() { load(a); store(*PORT2); }", params=[], body=[{"k": "load", "e": V("a")}, {"k": "store", "e": V("PORT2")}], calls=[]),
